@@ -97,9 +97,9 @@ def exactlyEqual (t : Nat × Nat × Nat × Nat × Nat) (a b : Compact Unit) (see
         if uab.ents.length == a.ents.length && uab.ents.length == b.ents.length && uab.theta == a.theta && uab.theta == b.theta
         then "E 1" else "E 0"
 
-def theta0OfP (pbits : UInt32) : Nat :=
+def theta0OfP (floor : Nat) (pbits : UInt32) : Nat :=
   let p := (Float32.ofBits pbits).toFloat
-  if p < 1 then ((UInt64.ofNat MAX_THETA).toFloat * p).toUInt64.toNat else MAX_THETA
+  if p < 1 then max floor ((UInt64.ofNat MAX_THETA).toFloat * p).toUInt64.toNat else MAX_THETA
 
 structure Tunables where
   rszNum : Nat := 1
@@ -107,9 +107,10 @@ structure Tunables where
   rbdNum : Nat := 15
   rbdDen : Nat := 16
   minLgK : Nat := 5
+  theta0Floor : Nat := 0
 
 def mkCfg (t : Tunables) (lgK lgRf : Nat) (pbits : UInt32) : Cfg :=
-  { lgNom := lgK, lgRf := lgRf, theta0 := theta0OfP pbits,
+  { lgNom := lgK, lgRf := lgRf, theta0 := theta0OfP t.theta0Floor pbits,
     lgStart := startingSubMultiple (lgK + 1) t.minLgK lgRf,
     rszNum := t.rszNum, rszDen := t.rszDen, rbdNum := t.rbdNum, rbdDen := t.rbdDen }
 
